@@ -47,6 +47,12 @@ theorem C15_reference (env : Env) (c : Char) (w post : List Char) (hc : isWord c
 example : Impl.inline [("V1".toList, "'A'".toList), ("V10".toList, "'$v1\\1'".toList)] "select $v10, $V1;".toList
     = .ok "select '$v1\\1', 'A';".toList := by decide
 
+/-- a dollar-quoted string whose body starts with `$name` (`$$$rate …$$`) holds no reference: each `$` of `$$$` has a `$`
+    next to it; and a statement may hold any number of references — all of them are substituted -/
+example : Impl.inline [("RATE".toList, "5".toList)] "select $$$rate per unit$$, $rate".toList
+    = .ok "select $$$rate per unit$$, 5".toList ∧
+    Impl.inline [("A".toList, "1".toList)] "$a,$a,$a,$a,$a,$a,$a,$a,$a,$a,$A".toList = .ok "1,1,1,1,1,1,1,1,1,1,1".toList := by decide
+
 /-- **Undefined variable**: if every reference before `$w` is defined and `w` is not, the error names `$W`
     (upper-cased) — and by `C15_no_execution` nothing is executed. -/
 theorem C15_undefined (env : Env) (pre : List Tok) (w : List Char) (post : List Tok)
